@@ -201,7 +201,7 @@ func main() {
 	run := lib.ParseArgs()
 	elaenv.InitLog(run.Out)
 	rng := lib.NewRng(run.Seed)
-	st := lib.NewStats("C01", "every transaction type whose CheckTransactionOutput/CheckTransactionFee run without chain state (44 of 48; coinbase excluded by the property; SideChainPow, CRCAppropriation, ExchangeVotes need chain state) x heights around CheckAddressHeight/NFTStartHeight x tx version 0/9 x MinTransactionFee 0/100/10000; 0..70 outputs (65535/65536 once) and 1..12 referenced outputs with amounts from {0,1,fee boundary,2^31,2^62+-k,2^63-1-k,negative,random}; generators: balanced (inputs = outputs + fee around the minimum), wrap attack (output or input total congruent to a small value mod 2^64), random. nontrivial = both checks accepted, or rejected only by the overflow guard; distinct by (kind, params, amounts)")
+	st := lib.NewStats("C01", "every transaction type whose CheckTransactionOutput/CheckTransactionFee run without chain state (40 of the factory's 44; coinbase excluded by the property; SideChainPow, CRCAppropriation, ExchangeVotes need chain state) x heights around CheckAddressHeight/NFTStartHeight x tx version 0/9 x MinTransactionFee 0/100/10000; 0..70 outputs (65535/65536 once) and 1..12 referenced outputs with amounts from {0,1,fee boundary,2^31,2^62+-k,2^63-1-k,negative,random}; plus end-to-end CheckTransactionSanity+CheckTransactionContext on the regnet chain fixture (real SpecialContextCheck) for ActivateProducer in zero-cost / funded / unsigned / duplicate-input forms at every height threshold +-1 and for transfers of the genesis output; generators: balanced (inputs = outputs + fee around the minimum), wrap attack (output or input total congruent to a small value mod 2^64), random. nontrivial = both checks accepted, or rejected only by the overflow guard; distinct by (kind, params, amounts)")
 	sh := &lib.Shards{Dir: run.Out, Imports: "From ELA Require Import model.C01_Fee corr.C01_corr.", CaseType: "C01_corr.case",
 		Mismatch: "C01_corr.mismatches", Scope: "Z", PerShard: 400}
 	id := 0
@@ -264,7 +264,8 @@ func main() {
 		tx := transaction.CreateTransaction(c.ver, c.tt, 0, &payload.TransferAsset{}, nil, ins, outs, 0, nil)
 		tx.SetParameters(&transaction.TransactionParameters{Transaction: tx, BlockHeight: c.height, Config: params})
 
-		var errOut, errPrec, errFee error
+		var errOut, errPrec, errFee, errIn error
+		pIn, _ := lib.Recover(func() { errIn = tx.CheckTransactionInput() })
 		pOut, pv := lib.Recover(func() {
 			errOut = tx.CheckTransactionOutput()
 			errPrec = transaction.CheckAssetPrecisionVerif(tx)
@@ -318,6 +319,11 @@ func main() {
 		}
 		st.Count(key, accepted || overflowOnly, kindTag)
 		st.Hist["type:"+c.tt.Name()]++
+		// ---- types whose SpecialContextCheck always ends validation on success (`return nil, true`:
+		// the "no output" types): the sanity checks alone must already rule out value creation
+		if k == kNone && !pIn && errIn == nil && vOut == 0 && so.Cmp(sr) > 0 {
+			st.Fail("c01:accept-inflation", "a transaction type that skips the fee check (SpecialContextCheck ends validation) passed CheckTransactionInput and CheckTransactionOutput with outputs exceeding the outputs it spends", in)
+		}
 		// ---- property oracle (exact arithmetic, independent of the model)
 		if accepted {
 			if so.Cmp(sr) > 0 {
@@ -658,6 +664,8 @@ func main() {
 		st.Count(fmt.Sprintf("blk|%v", fees), total != 0, "totalTxFee")
 	}
 	var _ interfaces.Transaction
+	// ---------------- end to end on the chain fixture (real SpecialContextCheck results)
+	e2e(run, st, rng)
 	st.Traces = st.Evals
 	sh.Flush()
 	st.Write(run.Out)
